@@ -8,6 +8,7 @@ mod isolate;
 mod c01;
 mod c02;
 mod c03;
+mod c04;
 mod c05;
 mod c06;
 mod c07;
@@ -43,6 +44,7 @@ fn main() {
         "c14-drive" => c14::drive(rest),
         "c14-replay" => c14::replay(),
         "c15-replay" => c15::replay(rest),
+        "c04-replay" => c04::replay(),
         "c05-drive" => c05::drive(rest),
         "c06-drive" => c06::drive(rest),
         "c07-replay" => c07::replay(),
